@@ -63,13 +63,29 @@ Definition render_ok_ssh (layout : arg) (data : bytes) : bool :=
   | _ => true
   end.
 
+(* the library hypothesis of C06_authorized_keys / C06_known_hosts, sampled on the recorded answers:
+   every entry line is accepted, and a CR at its end makes no difference *)
+Definition attrs_eqb (a b : attrs) : bool := arg_eqb (arg_of_info (Info [] a [])) (arg_of_info (Info [] b [])).
+Definition lib_hyp_ok (lib : bytes -> result attrs) (layout : arg) : bool :=
+  match layout with
+  | AL [AL items; _; _] =>
+      forallb (fun it => match item_of_arg it with
+                         | IEntry e => match lib e, lib (e ++ [13]) with
+                                       | Ok a, Ok b => attrs_eqb a b
+                                       | _, _ => false
+                                       end
+                         | _ => true
+                         end) items
+  | _ => true
+  end.
+
 Definition run_ssh (hosts : bool) (input : arg) : arg :=
   let data := arg_bytes (arg_nth 1 input) in
   let lib := lib_of (arg_list (arg_nth 2 input)) in
   let mine := if hosts then known_hosts lib data else authorized_keys lib data in
   out3 mine (arg_list (arg_nth 3 input))
        [if hosts then bs "SSHKnownHosts" else bs "SSHAuthorizedKeys"]
-       (render_ok_ssh (arg_nth 4 input) data).
+       (render_ok_ssh (arg_nth 4 input) data && lib_hyp_ok lib (arg_nth 4 input)).
 
 (* ---------- PEM ---------- *)
 Definition lastn {A} (k : nat) (l : list A) : list A := drop (length l - k) l.
@@ -91,10 +107,34 @@ Definition render_ok_pem (layout : arg) (data : bytes) : bool :=
   | _ => true
   end.
 
+(* the pem.Decode hypothesis of C06_pem_bundle, sampled: at the start of every well-formed block of the
+   layout, Decode returns that block and exactly what follows its armor *)
+Fixpoint dec_hyp_ok (dec : bytes -> option (pblock * bytes)) (items : list arg) (rest : bytes) : bool :=
+  match items with
+  | [] => true
+  | it :: r =>
+      let t := arg_bytes (arg_nth 1 it) in
+      let after := drop (length t) rest in
+      (if (arg_Z (arg_nth 0 it) =? 0)%Z then
+         match dec rest with
+         | Some (b, rest') =>
+             bytes_eqb (pb_type b) (arg_bytes (arg_nth 2 it)) && bytes_eqb (pb_bytes b) (arg_bytes (arg_nth 3 it))
+             && bytes_eqb rest' after
+         | None => false
+         end
+       else true) && dec_hyp_ok dec r after
+  end.
+Definition pem_hyp_ok (dec : bytes -> option (pblock * bytes)) (layout : arg) (data : bytes) : bool :=
+  match layout with
+  | AL [AL items] => dec_hyp_ok dec items data
+  | _ => true
+  end.
+
 Definition run_pem (input : arg) : arg :=
   let data := arg_bytes (arg_nth 1 input) in
   let mine := pem_file (dec_of (arg_list (arg_nth 2 input))) (desc_of (arg_list (arg_nth 3 input))) data in
-  out3 mine (arg_list (arg_nth 4 input)) [bs "PEMFile"] (render_ok_pem (arg_nth 5 input) data).
+  out3 mine (arg_list (arg_nth 4 input)) [bs "PEMFile"]
+       (render_ok_pem (arg_nth 5 input) data && pem_hyp_ok (dec_of (arg_list (arg_nth 2 input))) (arg_nth 5 input) data).
 
 (* ---------- keystores ---------- *)
 Definition secret_of (oracle : list arg) (off : N) (rest : bytes) : result (N * bytes * bytes) :=
@@ -127,12 +167,34 @@ Definition render_ok_jks (layout : arg) (data : bytes) : bool :=
   | _ => true
   end.
 
+(* the conclusion of the codec theorem, sampled: the reader returns exactly the entries written *)
+Definition jcert_eqb (a b : jcert) : bool := bytes_eqb (jc_type a) (jc_type b) && bytes_eqb (jc_bytes a) (jc_bytes b).
+Fixpoint list_eqb {A} (eqb : A -> A -> bool) (a b : list A) : bool :=
+  match a, b with
+  | [], [] => true
+  | x :: a', y :: b' => eqb x y && list_eqb eqb a' b'
+  | _, _ => false
+  end.
+Definition jentry_eqb (a b : jentry) : bool :=
+  (je_type a =? je_type b) && bytes_eqb (je_alias a) (je_alias b) && (je_date a =? je_date b)
+  && bytes_eqb (je_key a) (je_key b) && bytes_eqb (je_seal a) (je_seal b) && list_eqb jcert_eqb (je_certs a) (je_certs b).
+Definition jks_roundtrip_ok (secret : N -> bytes -> result (N * bytes * bytes)) (layout : arg) (data : bytes) : bool :=
+  match layout with
+  | AL [_; _; AL entries; _] =>
+      match jks_parse secret data with
+      | Ok es => list_eqb jentry_eqb es (map (fun e => fst (entry_of_arg e)) entries)
+      | _ => false
+      end
+  | _ => true
+  end.
+
 Definition run_jks (input : arg) : arg :=
   let data := arg_bytes (arg_nth 1 input) in
   let desc := if prefix_of jceks_magic data then jceks_desc else jks_desc in
   let mine := keystore_file (cert_of (arg_list (arg_nth 3 input))) (enc_of (arg_list (arg_nth 4 input))) true
                             (secret_of (arg_list (arg_nth 2 input))) desc data in
-  out3 mine (arg_list (arg_nth 5 input)) [bs "JavaKeystore"; bs "JCEKeystore"] (render_ok_jks (arg_nth 6 input) data).
+  out3 mine (arg_list (arg_nth 5 input)) [bs "JavaKeystore"; bs "JCEKeystore"]
+       (render_ok_jks (arg_nth 6 input) data && jks_roundtrip_ok (secret_of (arg_list (arg_nth 2 input))) (arg_nth 6 input) data).
 
 Definition run_C06 (op : bytes) (input : arg) : arg :=
   if bytes_eqb op (bs "akeys") then run_ssh false input
